@@ -1094,6 +1094,44 @@ func runC18(r *simcore.Run) {
 	e.judge()
 }
 
+// sharesPort says whether another listener of the scenario has the same port.
+func (sc *c18Scenario) sharesPort(l *c18Lis) bool {
+	for _, o := range sc.Listeners {
+		if o != l && o.port == l.port {
+			return true
+		}
+	}
+	return false
+}
+
+// probeAddresses counts which shapes of listener addresses the run contains.
+func (e *c18Env) probeAddresses() {
+	for _, l := range e.sc.Listeners {
+		switch {
+		case l.host == "":
+			e.r.Probe("listener_wildcard")
+		case strings.Contains(l.host, ":"):
+			e.r.Probe("listener_ipv6_literal")
+		case net.ParseIP(l.host) != nil:
+			e.r.Probe("listener_ipv4_literal")
+		default:
+			e.r.Probe("listener_by_name")
+		}
+		for _, o := range e.sc.Listeners {
+			if o == l || o.port != l.port {
+				continue
+			}
+			e.r.Probe("listeners_share_port")
+			if o.Kind != l.Kind {
+				e.r.Probe("listeners_share_port_different_kind")
+			}
+			if strings.Contains(o.host, ":") != strings.Contains(l.host, ":") {
+				e.r.Probe("listeners_share_port_across_families")
+			}
+		}
+	}
+}
+
 // state records the abstract state at a quiescent point: phase of the shutdown and, per kind, how many
 // client connections are open.
 func (e *c18Env) state() {
@@ -1227,6 +1265,9 @@ func (e *c18Env) judge() {
 		// (1) nothing that connects after shutdown has begun is served
 		if p.phase == "after" {
 			r.Probe("attempt_after_begun")
+			if sc.sharesPort(sc.Listeners[it.Lis]) {
+				r.Probe("attempt_after_begun_listener_shares_port")
+			}
 			if served {
 				r.Fail("accepts-after-shutdown", l18Kind(sc, it),
 					"%s item %s connected to %s at %s, after Shutdown had begun (called at %s), and was served (backend reached: %v, bytes received by the client: %d)",
